@@ -271,11 +271,15 @@ MCS = (0.05, 0.5, 0.95)
 class Moisture(Base):
     """config = (kind, retentate template, permeate template, water-in-solid-phase flag)
        action = ('adj', mc, ID form, strict)  |  ('msm', vec index, mc, strict)   (mix_and_split_with_moisture_content)"""
-    def __init__(self, name, kinds=('ss', 'mm'), **kw):
-        super().__init__(name, **kw); self.kinds = kinds
+    def __init__(self, name, kinds=('ss', 'mm'), copies=False, **kw):
+        super().__init__(name, **kw); self.kinds = kinds; self.copies = copies
 
     def _configs(self, tier):
         out = []
+        if self.copies:
+            # outlets that are `copy()`s of streams built with units='kg/hr' (their mass view exists before the copy is taken):
+            # 1 = both outlets are copies, 2 = only the retentate, 3 = only the permeate
+            return [('ss', r, p, 0, cp) for r in range(len(RET)) for p in range(len(PERM)) for cp in (1, 2, 3)]
         for kind in self.kinds:
             for r in range(len(RET)):
                 for p in range(len(PERM)):
@@ -299,10 +303,24 @@ class Moisture(Base):
             if g: s.imol['Glucose'] = g
         return s
 
+    def _mk_mass(self, th, w, g, e):
+        tmo = fx.tmo()
+        kw = {k: v for k, v in (('Water', w), ('Ethanol', e), ('Glucose', g)) if v}
+        s = tmo.Stream(None, thermo=th, units='kg/hr', **kw)
+        s.imass['Water']; s.mass            # the mass views exist (and were used) before any copy is taken
+        return s
+
     def _build(self, config):
-        kind, r, p, ws = config
+        kind, r, p, ws = config[:4]
+        cp = config[4] if len(config) > 4 else 0
         th = th6()
-        st = St(); st.th = th; st.kind = kind; st.ws = ws
+        st = St(); st.th = th; st.kind = kind; st.ws = ws; st.cp = cp
+        if cp:
+            ro = self._mk_mass(th, *RET[r]); po = self._mk_mass(th, *PERM[p])
+            st.S = dict(ret=ro.copy() if cp in (1, 2) else ro, perm=po.copy() if cp in (1, 3) else po)
+            if cp in (1, 2): st.S['ret_orig'] = ro
+            if cp in (1, 3): st.S['perm_orig'] = po
+            return st
         st.S = dict(ret=self._mk(th, kind[0] == 'm', *RET[r], ws=0.25 if ws else 0.0),
                     perm=self._mk(th, kind[1] == 'm', *PERM[p]))
         return st
@@ -329,9 +347,15 @@ class Moisture(Base):
         borderline = abs(transfer - pw) <= 1e-9 * max(1.0, pw)
         branch = 'sufficient' if sufficient else ('insufficient-strict' if strict in (None, True) else 'insufficient-nonstrict')
         match = dict(kind=st.kind if st.kind in ('sm', 'ms') else 'same', branch=branch, water_in_solid=bool(st.ws))
+        orig0 = {k: arr(v) for k, v in st.S.items() if k.endswith('_orig')}
+        if orig0: match['copies'] = st.cp
         r = call('adjust_moisture_content', lambda: sep.adjust_moisture_content(ret, perm, mc, ID, strict), dict(kind=match['kind']))
         r1 = arr(ret); p1 = arr(perm)
         det = dict(ret_before=r0, perm_before=p0, ret_after=r1, perm_after=p1, need=need, mc=mc)
+        for k, before in orig0.items():
+            if not close(arr(st.S[k]), before):
+                raise Violation('other-stream-modified', f'adjust_moisture_content(ID={ID}) on a copy changed the stream the copy was taken from: {before} -> {arr(st.S[k])} '
+                                f'(copy: {r0 if k == "ret_orig" else p0} -> {r1 if k == "ret_orig" else p1})', match=dict(match, copies=getattr(st, 'cp', 0)), detail=det)
         if isinstance(r, tuple) and r and r[0] == 'infeasible':
             if sufficient and not borderline:
                 raise Violation('spurious-infeasible', f'adjust_moisture_content raised InfeasibleRegion although the permeate holds {pw} kmol water and '
@@ -657,6 +681,78 @@ class PhaseSplit(Base):
         return ('ps', nonempty, 'nt' if nonempty >= 2 else '-')
 
 
+CYC_FLOWS = [(10, 10, 2), (30, 10, 0), (1, 1, 1)]        # Water, Ethanol, Methanol
+CYC_V = (0.5, 0.3)
+
+class PhaseSplitCycle(Base):
+    """one feed OBJECT that goes single-phase -> (g, l) -> single-phase -> (g, l) between uses, and one pair of outlets that is reused.
+    config = (initial flow index,); actions (enabled by the current representation of the feed):
+       single phase : ('flash', V index)  feed.vle(V=, P=101325) | ('flows', index) new flows
+       multi phase  : ('split',) phase_split(feed, [vapor, liquid])  | ('collapse', 'l' | 'g') feed.phase = p
+       ('wvle', V index): the vle wrapper with the feed as it is (single phase only) into the same outlets"""
+    def _configs(self, tier):
+        return [(0,)] if tier == 'quick' else [(0,), (1,)]
+
+    def _build(self, config):
+        tmo = fx.tmo(); th = th6()
+        st = St(); st.th = th
+        feed = tmo.Stream(None, thermo=th)
+        for ID, x in zip(PK6[:3], CYC_FLOWS[config[0]]):
+            if x: feed.imol[ID] = x
+        st.S = dict(feed=feed, vapor=tmo.Stream(None, thermo=th), liquid=tmo.Stream(None, thermo=th))
+        return st
+
+    def actions(self, st):
+        tmo = fx.tmo()
+        feed = st.S['feed']
+        if isinstance(feed, tmo.MultiStream):
+            return [('split',), ('collapse', 'l'), ('collapse', 'g')]
+        nfl = 2 if self._tier == 'quick' else len(CYC_FLOWS)
+        return [('flash', 0), ('flash', 1)] + [('flows', i) for i in range(nfl)] + [('wvle', 0)]
+
+    def _step(self, st, a):
+        tmo = fx.tmo(); sep = tmo.separations
+        feed = st.S['feed']; outs = [st.S['vapor'], st.S['liquid']]
+        match = dict(action=a[0])
+        if a[0] == 'flash':
+            r = call('Stream.vle', lambda: feed.vle(V=CYC_V[a[1]], P=101325.0), match, allowed=(RuntimeError,))
+            return ('flash', '-')
+        if a[0] == 'flows':
+            feed.T = 298.15
+            for ID, x in zip(PK6[:3], CYC_FLOWS[a[1]]): feed.imol[ID] = x
+            return ('flows', '-')
+        if a[0] == 'collapse':
+            tot = arr(feed)
+            feed.phase = a[1]
+            if not close(arr(feed), tot): raise Rejected('collapse changed the totals (C12 subject)', cut=True)
+            return ('collapse', '-')
+        if a[0] == 'wvle':
+            f0 = arr(feed)
+            r = call('vle', lambda: sep.vle(feed, outs[0], outs[1], V=CYC_V[a[1]], P=101325.0), match, allowed=(RuntimeError,))
+            A, B = arr(outs[0]), arr(outs[1])
+            if not close(A + B, f0, rtol=1e-9):
+                raise Violation('balance', f'vle wrapper after the feed went through {type(feed).__name__}: vapor + liquid = {A + B}, feed = {f0}', match=match)
+            return ('wvle', 'nt' if A.any() and B.any() else '-')
+        # split
+        before = phase_arrays(feed)
+        phases = tuple(feed.phases)
+        r = call('phase_split', lambda: sep.phase_split(feed, outs), match)
+        tot = np.zeros(len(PK6)); nonempty = 0
+        for ph, o in zip(phases, outs):
+            x = arr(o); tot += x
+            if not close(x, before[ph], rtol=1e-9):
+                raise Violation('phase-outlet', f'phase_split (feed re-used after collapse / re-flash): outlet for phase {ph!r} holds {x}, the feed holds {before[ph]} in that phase',
+                                match=match)
+            if x.any():
+                nonempty += 1
+                if o.phase != ph: raise Violation('phase-outlet', f'outlet for phase {ph!r} reports phase {o.phase!r}', match=match)
+        if not close(tot, arr(feed), rtol=1e-9):
+            raise Violation('balance', f'phase_split: outlets sum to {tot}, feed {arr(feed)}', match=match)
+        after = phase_arrays(feed)
+        if any(not close(after[p], before[p]) for p in before): raise Violation('inlet-modified', 'phase_split changed its feed', match=match)
+        return ('split', 'nt' if nonempty >= 2 else '-')
+
+
 class Splits(Base):
     """chemical_splits(a, b) and chemical_splits(a, mixed=): config = (a vector index, b vector index); action = ('cs', form)"""
     def _configs(self, tier):
@@ -799,6 +895,7 @@ SYSTEMS = [
     Moisture('c20.moisture.grid'),
     Moisture('c20.moisture.repeat', depth_q=2, depth_t=2),
     Moisture('c20.moisture.mixed-kinds', kinds=('sm', 'ms')),
+    Moisture('c20.moisture.copies', copies=True, depth_q=1, depth_t=2),
     Partition('c20.partition.grid'),
     Partition('c20.partition.k4', ks=(4,)),
     Partition('c20.partition.reuse', hist=True, ks=(2, 3), depth_q=2, depth_t=2),
@@ -807,6 +904,7 @@ SYSTEMS = [
     Equil('c20.lle', 'lle'),
     Equil('c20.lle.reuse', 'lle', hist=True, depth_q=2, depth_t=2),
     PhaseSplit('c20.phase_split'),
+    PhaseSplitCycle('c20.phase_split.cycle', depth_q=5, depth_t=7),
     Splits('c20.chemical_splits'),
     MatBal('c20.material_balance'),
 ]
